@@ -87,15 +87,15 @@ theorem acts_keep (cfg : Cfg) (rec : Rec) (hal : AlOK cfg rec) (hrec : KeepSpec 
     exact ⟨fun _ _ _ => rfl, fun _ _ h => h, hm⟩
   | cons a rest ih =>
     intro s ha hm
-    by_cases hdep : ∃ n o j v x, a = .dep n o j v x
-    · obtain ⟨n, o, j, v, x, rfl⟩ := hdep
+    by_cases hdep : ∃ n o j v x t, a = .dep n o j v x t
+    · obtain ⟨n, o, j, v, x, t, rfl⟩ := hdep
       simp only [acts, hk, if_true]
       split
       · exact ih s ha hm
-      · have hpost := hrec depth j vro n v x s ha hm
-        have hal1 := hal true (depth + 1) j (.keep :: vro) n v x s
+      · have hpost := hrec depth j (t.map VroEnt.tag ++ vro) n v x s ha hm
+        have hal1 := hal true (depth + 1) j (.keep :: (t.map VroEnt.tag ++ vro)) n v x s
         -- a failed dependency: environment restored, `alreadySetupProducts` as the attempt left it
-        have fail : ∀ s1 : St, (rec true (depth + 1) j (.keep :: vro) n v x s).st? = some s1 →
+        have fail : ∀ s1 : St, (rec true (depth + 1) j (.keep :: (t.map VroEnt.tag ++ vro)) n v x s).st? = some s1 →
             KeepPost s (if (true && !o) = true then
                 Res.raised ⟨s.env, s.aliases, s.unaliased, s1.already⟩
               else acts rec cfg true depth noRec vro d rest ⟨s.env, s.aliases, s.unaliased, s1.already⟩) := by
@@ -108,7 +108,7 @@ theorem acts_keep (cfg : Cfg) (rec : Rec) (hal : AlOK cfg rec) (hrec : KeepSpec 
           split
           · exact hA
           · exact keepPost_trans s _ _ hA (fun _ _ h => h) (ih _ (hal1 s1 ha hr) hm1)
-        cases hr : rec true (depth + 1) j (.keep :: vro) n v x s with
+        cases hr : rec true (depth + 1) j (.keep :: (t.map VroEnt.tag ++ vro)) n v x s with
         | ok s1 =>
           simp only
           rw [hr] at hpost
@@ -117,7 +117,7 @@ theorem acts_keep (cfg : Cfg) (rec : Rec) (hal : AlOK cfg rec) (hrec : KeepSpec 
         | fuel => simp only; trivial
         | notFound s1 => simp only; exact fail s1 (by rw [hr]; rfl)
         | raised s1 => simp only; exact fail s1 (by rw [hr]; rfl)
-    · have hnd : ∀ n o j v x, a ≠ .dep n o j v x := fun n o j v x e => hdep ⟨n, o, j, v, x, e⟩
+    · have hnd : ∀ n o j v x t, a ≠ .dep n o j v x t := fun n o j v x t e => hdep ⟨n, o, j, v, x, t, e⟩
       rw [acts_cons_nondep rec cfg true depth noRec vro d a rest s hnd]
       have hm1 : Mirror (a.apply true d.prod s) := by
         intro m w hw
